@@ -70,7 +70,7 @@ def _items(rng):
                 spec = {"hex": bytes(rng.randrange(256) for _ in range(ln)).hex()}
             else:
                 spec = {"pat": [rng.randint(0, 250), ln]}
-            items.append({"d": "incbin", "f": f"data{nbin}.bin", "spec": spec})
+            items.append({"d": "incbin", "f": rng.choice([f"data{nbin}.bin", f"data{nbin}.bin", f"sub/blob{nbin}.dat", f"sub/deep/x{nbin}.b.in"]), "spec": spec})
             nbin += 1
     return items
 
@@ -173,7 +173,7 @@ def run_case(case) -> Outcome:
     k = 0
     for i, it in enumerate(items):
         if it["d"] == "incbin":
-            base = it["f"].replace(".", "_")
+            base = it["f"].replace("/", "_").replace(".", "_")
             src.append(f".dl {base}, {base}__size")
             expected += starts[i].to_bytes(3, "little") + (len(driver.file_bytes(it["spec"])) & 0xFFFFFF).to_bytes(3, "little")
             k += 1
